@@ -51,6 +51,8 @@ m = {
     "engines": [
         {"name": "kani-cbmc", "path": "/verif/harness", "serves_properties": [c["property_id"] for c in checks],
          "kind_free_text": "Kani 0.68 proof harnesses over the real crate (path dependency on /repo), decided by CBMC 6.11 + CaDiCaL; driver /verif/verif.py runs one solver process per harness, checks vacuity covers, replays counterexamples natively (dev + release)"},
+        {"name": "e2-mir-smt", "path": "/verif/smt", "serves_properties": ["C09", "C10"],
+         "kind_free_text": "MIR -> SMT: the optimised MIR of /repo's working tree is dumped (cargo +nightly rustc -Zunpretty=mir), the loop-free supply/arrival kernels are executed symbolically into z3 integer terms with explicit overflow obligations, validated against the native functions, and wide-range facts (periods <= 65536, windows <= 10^6) are decided by z3 5.1 with cvc5 / z3 4.8 as second opinions; supplementary to the Kani harnesses of the same properties"},
     ],
     "checks": checks,
     "not_applicable": na,
